@@ -32,6 +32,13 @@ def _worker_init(modname):
     _MOD = importlib.import_module(modname)
     signal.signal(signal.SIGINT, signal.SIG_IGN)
 
+    def _stop(signum, frame):
+        # the dispatcher gives up on this worker (budget used up): take the simulated child along
+        ex.kill_current_child()
+        os._exit(1)
+
+    signal.signal(signal.SIGTERM, _stop)
+
 
 def _worker(args):
     """Execute a chunk of run indices; never raises (harness problems are data)."""
@@ -65,7 +72,7 @@ def load_known():
         return json.load(fh).get("findings", [])
 
 
-def run_check(prop: str, tier: str, runs=None, workers=None, budget_s=None, opts=None, write_evidence=True, quiet=False):
+def run_check(prop: str, tier: str, runs=None, workers=None, budget_s=None, opts=None, write_evidence=True, quiet=False, stop_on_violation=False):
     mod = importlib.import_module(CHECKS[prop])
     ex.bootstrap()
     base = util.base_seed()
@@ -93,6 +100,9 @@ def run_check(prop: str, tier: str, runs=None, workers=None, budget_s=None, opts
             left = cfg["budget_s"] - (time.monotonic() - t0)
             try:
                 results.extend(f.result(timeout=max(left, 0.01) if not exhausted else 0.01))
+                if stop_on_violation and not exhausted and any(r.get("violations") for r in results):
+                    # (regression tooling only) the first violation is enough: do not explore the rest of the tier
+                    exhausted = True
             except cf.TimeoutError:
                 exhausted = True
                 f.cancel()
@@ -110,7 +120,15 @@ def run_check(prop: str, tier: str, runs=None, workers=None, budget_s=None, opts
             pool.shutdown(wait=False, cancel_futures=True)
             for p in procs:
                 try:
-                    p.kill()
+                    p.terminate()
+                except Exception:  # noqa: BLE001
+                    pass
+            t_kill = time.monotonic() + 3.0
+            for p in procs:
+                try:
+                    p.join(max(0.0, t_kill - time.monotonic()))
+                    if p.is_alive():
+                        p.kill()
                 except Exception:  # noqa: BLE001
                     pass
         else:
@@ -312,6 +330,7 @@ def main(argv=None):
     ap.add_argument("--budget", type=float)
     ap.add_argument("--no-evidence", action="store_true")
     ap.add_argument("--short", action="store_true")
+    ap.add_argument("--stop-on-violation", action="store_true", help="(tooling) stop exploring after the first run that shows a violation")
     a = ap.parse_args(argv)
 
     def _term(signum, frame):
@@ -337,7 +356,7 @@ def main(argv=None):
         elif a.replay:
             code = replay(a.prop, a.replay)
         else:
-            code, _m, _r = run_check(a.prop, a.tier, runs=a.runs, workers=a.workers, budget_s=a.budget, write_evidence=not a.no_evidence)
+            code, _m, _r = run_check(a.prop, a.tier, runs=a.runs, workers=a.workers, budget_s=a.budget, write_evidence=not a.no_evidence, stop_on_violation=a.stop_on_violation)
     except SystemExit as e:
         code = e.code if isinstance(e.code, int) else 2
     except BaseException:  # noqa: BLE001
